@@ -182,12 +182,16 @@ def main(argv=None):
         active = []
         probe_specs = []
         for f in my_findings:
-            rp = f["replays"][pid] if "replays" in f else f["replay"]
+            # a finding is probed with the reproducer committed for this property, or - when its root cause was
+            # demonstrated under another property and merely has to be kept out of this property's generators - with
+            # its primary reproducer, run by the check it belongs to
+            reps = f.get("replays") or {}
+            rp = reps.get(pid) or (next(iter(reps.values())) if reps else f["replay"])
             rp = os.path.join(VERIF_ROOT, rp)
             with open(rp) as fh:
                 doc = json.load(fh)
-            probe_specs.append({"prop": pid, "arm": doc["arm"], "mode": "replay", "cases": [doc["case"]],
-                                "ctx": Ctx(tier, seed).to_json(), "timeout_s": 900})
+            probe_specs.append({"prop": doc.get("property", pid), "arm": doc["arm"], "mode": "replay",
+                                "cases": [doc["case"]], "ctx": Ctx(tier, seed).to_json(), "timeout_s": 900})
         probe_res = pool.run_all(probe_specs) if probe_specs else []
         for f, r in zip(my_findings, probe_res):
             if r.get("harness_error"):
